@@ -984,7 +984,7 @@ pub fn ef_strategy(allow_cookie: bool) -> BoxedStrategy<EfSpec> {
         3 => prop_oneof![Just(104u16), Just(168u16), 0u16..300].prop_map(|len| EfSpec::Placeholder { len }),
         1 => (1u16..64).prop_map(|len| EfSpec::BadPlaceholder { len }),
         1 => (0u16..64).prop_map(|len| EfSpec::Padding { len }),
-        2 => (prop_oneof![0u16..520, any::<u16>()], prop_oneof![Just(4u16), Just(16), Just(64), Just(512), 0u16..40, 500u16..530])
+        2 => (prop_oneof![3 => 0u16..520, 1 => any::<u16>(), 1 => 0xFE00u16..=0xFFFF, 1 => prop::sample::select(vec![0xFFF0u16, 0xFFFC, 0xFFFF, 0x8000, 0xFE00])], prop_oneof![Just(4u16), Just(16), Just(64), Just(512), 0u16..40, 500u16..530, 510u16..700])
             .prop_map(|(offset, len)| EfSpec::RefIdReq { offset, len }),
         1 => bytes(0..40).prop_map(|body| EfSpec::RefIdResp { body }),
         1 => bytes(0..30).prop_map(EfSpec::ExtraDraftId),
@@ -1266,7 +1266,7 @@ pub fn ef_soup() -> BoxedStrategy<Vec<u8>> {
     ];
     let field = (
         prop_oneof![6 => prop::sample::select(types), 1 => any::<u16>()],
-        bytes(0..41),
+        prop_oneof![10 => bytes(0..41), 2 => bytes(1..6), 1 => bytes(500..700)],
         prop_oneof![5 => Just(0i32), 3 => -3i32..=3, 1 => -40i32..=40, 1 => Just(i32::MIN), 1 => 0i32..0x10000],
         (0u16..25, 0u16..41, any::<bool>()),
         any::<bool>(),
